@@ -94,14 +94,27 @@ def mk_ev(lo, hi, n, m, via=None):
         h = zlib.crc32(repr((list(map(float, lo)), list(map(float, hi)), n, m)).encode())
         via = ("direct", "direct", "direct", "direct", "direct", "direct", "direct", "unit", "shifted", "wide")[h % 10]
     if via == "direct":
-        return Evolvent(lo_a, hi_a, n, m)
-    if via == "unit":
-        ev = Evolvent(np.zeros(n), np.ones(n), n, m)
-    elif via == "shifted":
-        ev = Evolvent(lo_a + 3.0, hi_a + 4.5, n, m)
+        ev = Evolvent(lo_a, hi_a, n, m)
     else:
-        ev = Evolvent(lo_a - 10.0, hi_a + 10.0, n, m)
-    ev.SetBounds(lo_a, hi_a)
+        if via == "unit":
+            ev = Evolvent(np.zeros(n), np.ones(n), n, m)
+        elif via == "shifted":
+            ev = Evolvent(lo_a + 3.0, hi_a + 4.5, n, m)
+        else:
+            ev = Evolvent(lo_a - 10.0, hi_a + 10.0, n, m)
+        ev.SetBounds(lo_a, hi_a)
+    # about 40 % of the objects have already answered queries before the oracle uses them (results must not depend on earlier
+    # queries): inverse-image queries with a float array, an INTEGER-typed array, a Python list, and a forward query
+    prime = ("none", "none", "none", "float", "int")[(h // 10) % 5] if 'h' in dir() else "none"
+    if prime != "none":
+        pt = [float(math.ceil(l)) if math.ceil(l) <= u else (l + u) / 2 for l, u in zip(map(float, lo), map(float, hi))]
+        if prime == "int" and all(v.is_integer() for v in pt):
+            ev.GetInverseImage(np.array(pt, dtype=np.int64))
+            ev.GetPreimages([int(v) for v in pt])
+        else:
+            ev.GetInverseImage(np.array(pt, dtype=np.double))
+            ev.GetPreimages(list(pt))
+        ev.GetImage(0.3)
     return ev
 
 
